@@ -254,7 +254,7 @@ ADDENDA = {
     "C30": " Also: every declaration lookup in the type checker (18 sites) reports UndefinedMemoryReference when the region is not declared; a number literal is rejected exactly when |imaginary part| is non-zero (sign-symmetric test, error on the non-zero side).",
     "C31": " Also: a MemoryReference or Immediate argument is accepted for ExternParameterType::Scalar only (decision read from the match in the arm or from the Option/Result helper called on data_type). Also: the argument-count comparison uses the plain argument count (no lossy arithmetic) against parameters plus the return slot; a mutable parameter is printed with `mut` on every path, whatever its type.",
     "C33": " Also: MOVE, SUB and JUMP-WHEN address the same memory cell (the caller's reference) and the declared length covers its index (repaired); the early returns are decided on the MIR paths; add_instruction stores a DECLARE by an unconditional insert, so the generated declaration replaces an existing one.",
-    "C35": " Also: simplify never reads the unexpanded body; CALL names are collected in the loop over the expanded body; the three pruning steps (frames, waveforms, extern pragmas) run on every path.",
+    "C35": " Also: simplify never reads the unexpanded body; CALL names are collected in the loop over the expanded body; the three pruning steps (frames, waveforms, extern pragmas) run on every path. A waveform / extern pragma is kept exactly when its name is in the used set (positive membership; an absent extern name keeps nothing).",
     "C20": " Also: the referenced set is filled under a transitive reachability query; errors are raised only for selected invocations.",
     "C21": " Also: every effect of an iteration (extend / push / entry push) is unconditional within its arm; both Program-level entry points return the program they built.",
     "C29": " A traversal that prunes paths is reported as undecided, never as a violation. Also: every node without incoming edges starts a walk (the externals iterator is collected unfiltered).",
